@@ -896,6 +896,7 @@ EQ = os.path.join(HERE, "equiv")
 
 # behaviour-preserving refactors: every listed check must stay SILENT (exit 0) on them — a check that fires here is a false alarm
 EQUIV = [
+    ("eq-welcome-guard-in-helper", ["C16", "C06", "C03", "C08", "C12"], [os.path.join(EQ, "welcome_guard_in_helper.diff")], []),
     ("eq-rollback-bookkeeping-helper", ["C01", "C02", "C07", "C12", "C18", "C05", "C06"], [os.path.join(EQ, "rollback_bookkeeping_helper.diff")], []),
     ("eq-filename-validator-max-param", ["C17", "C06", "C14", "C12"], [os.path.join(EQ, "filename_validator_with_max_param.diff")], []),
     ("eq-memory-put-group-helper", ["C08", "C09", "C10", "C19", "C06", "C12"], [os.path.join(EQ, "memory_put_group_helper.diff")], []),
